@@ -20,3 +20,15 @@ Lemma skel_own_chain_key_ok :
   skel_own_chain_key = ["lock s.messageMutex"; "defer unlock s.messageMutex";
                         "call getDeviceChainKeyForGroupAndDevice"; "call newDeviceChainKey"; "call registerChainKey"].
 Proof. reflexivity. Qed.
+
+(* registerChainKey has a branch that stores a chain key AS IT IS (no precomputed keys, no message mutex): it is
+   meant for the chain key the device has just created for itself, and that is the only caller that asks for it
+   (Model.Store.own_chain_muts).  An announcement read from the metadata log - the device's own one included,
+   which comes back to it like any other - goes through the test below, which compares the local MEMBER key with
+   the sender's DEVICE key; the model registers every announcement through the precomputing branch
+   (Model.C02_Ratchet.RReg, [own := false]), in which an existing record is never replaced *)
+Lemma register_branches_ok :
+  register_public_own_test = "localMemberDevice.Member().Equals(senderDevicePublicKey)" /\
+  register_public_passes = "hasSecretBeenSentByCurrentDevice" /\
+  register_chain_key_callers = ["getOwnDeviceChainKeyForGroup: true"; "RegisterChainKey: hasSecretBeenSentByCurrentDevice"].
+Proof. repeat split; reflexivity. Qed.
